@@ -157,6 +157,8 @@ def q1(ctx):
     obs = []
     makers = []
     for fi in ctx.P.all_funcs():
+        if ctx.absorbed(fi):
+            continue
         for n in walk_local(fi.node):
             if isinstance(n, ast.Call) and (dotted(n.func) or "").split(".")[-1] in ("Element", "SubElement"):
                 for a in n.args[:2]:
